@@ -1192,6 +1192,8 @@ def replay(req):
     spec = req.get("spec") or {}
     seed = int(req.get("seed", 0) or 0)
     what = spec.get("what")
+    if what not in ("rtransform", "grid", "angular", "atomgrid", "coulomb"):
+        what = None
     col = Collector("replay")
     warnings.simplefilter("ignore")
     if what in (None, "rtransform"):
